@@ -11,6 +11,13 @@ import json, multiprocessing, os, shutil, subprocess, sys, tempfile
 VERIF = os.path.dirname(os.path.dirname(os.path.abspath(__file__)))
 
 
+def _tmpdir(scratch: str) -> str:
+    """A temp directory inside the scratch copy: whatever the code under test or a demo leaves in $TMPDIR goes away with it."""
+    path = os.path.join(scratch, "tmp")
+    os.makedirs(path, exist_ok=True)
+    return path
+
+
 def one(args):
     sid, tier = args
     base = os.path.join(VERIF, "seeded", sid)
@@ -21,7 +28,7 @@ def one(args):
         res = subprocess.run(["patch", "-p1", "--no-backup-if-mismatch", "-s", "-i", os.path.join(base, "patch.diff")], cwd=scratch, capture_output=True, text=True)
         if res.returncode != 0:
             return sid, "STALE", {}
-        env = dict(os.environ, VERIF_REPO_SRC=os.path.join(scratch, "src"), VERIF_OUT_DIR=os.path.join(scratch, "out"), VERIF_PROCS="4")
+        env = dict(os.environ, TMPDIR=_tmpdir(scratch), VERIF_REPO_SRC=os.path.join(scratch, "src"), VERIF_OUT_DIR=os.path.join(scratch, "out"), VERIF_PROCS="4")
         out = {}
         for chk in meta.get("checks", {meta["property"]: 0}):
             proc = subprocess.run([os.path.join(VERIF, "check"), chk, tier], cwd=VERIF, env=env, capture_output=True, text=True)
